@@ -395,6 +395,57 @@ func (c *SpecCtx) eval(e Expr) Val {
 			}
 		}
 		c.bound = nb
+		// range triggers: for a bound variable q guarded by q < len(S), the element pointer
+		// idx(S, q) is the natural E-matching trigger; a trivially true mention of it is put
+		// into the body so that skolemised goals contain the ground instance
+		var trigTerms []string
+		trigFor := map[string]bool{}
+		{
+			var guard Expr
+			if bb, ok := e.Body.(*EBinary); ok && bb.Op == "==>" && e.Forall {
+				guard = bb.X
+			} else if !e.Forall {
+				guard = e.Body
+			}
+			if guard != nil {
+				var cs []Expr
+				conjuncts(guard, &cs)
+				for _, cj := range cs {
+					bb, ok := cj.(*EBinary)
+					if !ok || bb.Op != "<" {
+						continue
+					}
+					id, ok := bb.X.(*EIdent)
+					if !ok {
+						continue
+					}
+					if _, isQ := nb[id.Name]; !isQ || trigFor[id.Name] {
+						continue
+					}
+					if _, mine := saved[id.Name]; mine {
+						continue
+					}
+					call, ok := bb.Y.(*ECall)
+					if !ok || len(call.Args) != 1 {
+						continue
+					}
+					if fn, ok := call.Fun.(*EIdent); !ok || fn.Name != "len" {
+						continue
+					}
+					if mentionsVar(call.Args[0], id.Name) {
+						continue
+					}
+					func() {
+						defer func() { recover() }()
+						sv := c.eval(call.Args[0])
+						if _, isSl := sv.Typ.Underlying().(*types.Slice); isSl {
+							trigTerms = append(trigTerms, enc.elemPtr(sv.T, nb[id.Name].T))
+							trigFor[id.Name] = true
+						}
+					}()
+				}
+			}
+		}
 		body := c.eval(e.Body)
 		c.bound = saved
 		body = c.materialize(body, nil)
@@ -407,6 +458,30 @@ func (c *SpecCtx) eval(e Expr) Val {
 			qnames = append(qnames, nb[qv.Name].T)
 		}
 		pat := idxPatterns(b, qnames)
+		if len(trigTerms) > 0 && len(trigFor) == len(e.Vars) {
+			enc.addPre("trig", "(declare-fun trig (Ptr) Bool)\n(assert (forall ((p Ptr)) (! (trig p) :pattern ((trig p)))))")
+			var ts []string
+			for _, t := range trigTerms {
+				ts = append(ts, "(trig "+t+")")
+			}
+			tr := and(ts...)
+			// splice the mention into the body: (=> G P) becomes (=> G (and trig P)); (and ...) gets it as a conjunct
+			if e.Forall {
+				if parts, ok := splitApp(b, "=>", 2); ok {
+					b = fmt.Sprintf("(=> %s (and %s %s))", parts[0], tr, parts[1])
+				} else {
+					b = fmt.Sprintf("(and %s %s)", tr, b)
+				}
+			} else {
+				b = fmt.Sprintf("(and %s %s)", tr, b)
+			}
+			mp := ":pattern (" + strings.Join(trigTerms, " ") + ")"
+			if pat == "" || len(e.Vars) > 1 {
+				pat = mp
+			} else if !strings.Contains(pat, trigTerms[0]) {
+				pat = pat + " " + mp
+			}
+		}
 		if e.Forall {
 			if len(ranges) > 0 {
 				b = implies(and(ranges...), b)
@@ -826,6 +901,11 @@ func (c *SpecCtx) evalCall(e *ECall) Val {
 		a := c.eval(e.Args[0])
 		b := c.eval(e.Args[1])
 		return Val{T: fmt.Sprintf("(and (= %s %s) (= %s %s) (= %s %s) (= %s %s))", sArr(a.T), sArr(b.T), sOff(a.T), sOff(b.T), sLen(a.T), sLen(b.T), sFld(a.T), sFld(b.T)), Typ: boolT}
+	case "same_array":
+		// same_array(a, b): the two slices share their backing array
+		a := c.eval(e.Args[0])
+		b := c.eval(e.Args[1])
+		return Val{T: fmt.Sprintf("(and (= %s %s) (= %s %s))", sArr(a.T), sArr(b.T), sFld(a.T), sFld(b.T)), Typ: boolT}
 	case "elem_addr":
 		// elem_addr(s, i): pointer to element i of slice s
 		s := c.eval(e.Args[0])
